@@ -129,7 +129,32 @@ Fixpoint py_eq (a b : val) : bool :=
   end.
 
 Inductive binop := Add | Sub | Mult.
-Inductive cmpop := Eq | NotEq | Lt | LtE | Gt | GtE | Is | IsNot.
+Inductive cmpop := Eq | NotEq | Lt | LtE | Gt | GtE | Is | IsNot | CmpIn | CmpNotIn.
+
+(* a dict is VObj "dict" [("items", VList [VTuple [k; v]; ..])], insertion ordered; keys compare with == *)
+Fixpoint dict_get (k : val) (items : list val) : option val :=
+  match items with
+  | [] => None
+  | VTuple [k'; v] :: r => if py_eq k' k then Some v else dict_get k r
+  | _ :: r => dict_get k r
+  end.
+Definition dict_mem (k : val) (items : list val) : bool :=
+  match dict_get k items with Some _ => true | None => false end.
+(* d[k] = v: an existing entry keeps its key and its place *)
+Fixpoint dict_upd (k v : val) (items : list val) : list val :=
+  match items with
+  | [] => []
+  | VTuple [k'; v'] :: r => (if py_eq k' k then VTuple [k'; v] else VTuple [k'; v']) :: dict_upd k v r
+  | x :: r => x :: dict_upd k v r
+  end.
+Definition dict_set (k v : val) (items : list val) : list val :=
+  if dict_mem k items then dict_upd k v items else (items ++ [VTuple [k; v]])%list.
+Definition mk_dict (items : list val) : val := VObj "dict" [("items", VList items)].
+Definition dict_items (v : val) : option (list val) :=
+  match v with
+  | VObj cls [(f, VList items)] => if String.eqb cls "dict" && String.eqb f "items" then Some items else None
+  | _ => None
+  end.
 
 Definition py_binop (op : binop) (a b : val) : res val :=
   match op, a, b with
@@ -147,6 +172,11 @@ Definition is_none (v : val) : bool := match v with VNone => true | _ => false e
 
 Definition py_compare (op : cmpop) (a b : val) : res val :=
   match op with
+  | CmpIn | CmpNotIn =>
+    match dict_items b with
+    | Some items => Ok (VBool (match op with CmpIn => dict_mem a items | _ => negb (dict_mem a items) end))
+    | None => Stuck "in / not in: only on a dict"
+    end
   | Eq => Ok (VBool (py_eq a b))
   | NotEq => Ok (VBool (negb (py_eq a b)))
   | Is | IsNot =>
@@ -238,11 +268,18 @@ Definition s_utf8 : list N := [117; 116; 102; 45; 56]%N.           (* "utf-8"  *
 Definition s_utf16 : list N := [117; 116; 102; 45; 49; 54]%N.      (* "utf-16" *)
 Definition s_utf32 : list N := [117; 116; 102; 45; 51; 50]%N.      (* "utf-32" *)
 
+Definition s_progress : list N := [36; 47; 112; 114; 111; 103; 114; 101; 115; 115]%N.        (* "$/progress" *)
+Definition s_progress_create : list N :=                       (* "window/workDoneProgress/create" *)
+  [119; 105; 110; 100; 111; 119; 47; 119; 111; 114; 107; 68; 111; 110; 101; 80; 114; 111; 103; 114; 101; 115; 115;
+   47; 99; 114; 101; 97; 116; 101]%N.
+
 Definition global_const (p : list string) : option val :=
   if path_eqb p ["types"; "PositionEncodingKind"; "Utf8"] then Some (VStr s_utf8)
   else if path_eqb p ["types"; "PositionEncodingKind"; "Utf16"] then Some (VStr s_utf16)
   else if path_eqb p ["types"; "PositionEncodingKind"; "Utf32"] then Some (VStr s_utf32)
   else if path_eqb p ["IS_WIN"] then Some (VBool false)      (* POSIX; the Windows branch is not covered *)
+  else if path_eqb p ["PROGRESS"] then Some (VStr s_progress)
+  else if path_eqb p ["WINDOW_WORK_DONE_PROGRESS_CREATE"] then Some (VStr s_progress_create)
   else None.
 
 (* record constructors: class name and fields in positional order (lsprotocol attrs classes;
@@ -251,6 +288,9 @@ Definition ctor_table (p : list string) : option (string * list string) :=
   if path_eqb p ["types"; "Position"] then Some ("Position", ["line"; "character"])
   else if path_eqb p ["ResponseError"] then Some ("ResponseError", ["code"; "message"; "data"])
   else if path_eqb p ["types"; "Range"] then Some ("Range", ["start"; "end"])
+  else if path_eqb p ["ProgressParams"] then Some ("ProgressParams", ["token"; "value"])
+  else if path_eqb p ["WorkDoneProgressCreateParams"] then Some ("WorkDoneProgressCreateParams", ["token"])
+  else if path_eqb p ["Future"] then Some ("Future", [])      (* a new pending future; identity is not modelled *)
   else None.
 
 Definition py_getattr (v : val) (a : string) : res val :=
@@ -384,7 +424,10 @@ Inductive expr :=
 | ESumGen (elt : expr) (x : string) (iter : expr)     (* sum(elt for x in iter) *)
 | EGetattr (e : expr) (a : string) (d : option expr)  (* getattr(e, "a") / getattr(e, "a", d) *)
 | EFString (parts : list expr)       (* f"..{e}.." without conversions / format specs; parts must be str *)
-| EProp (e : expr) (name : string).  (* e.name where name is a translated @property of e's class *)
+| EProp (e : expr) (name : string)   (* e.name where name is a translated @property of e's class *)
+| EClosure (q : list string) (captured : list string).
+    (* the function object of a nested `def`, lambda-lifted to the translated function q whose
+       leading parameters are the captured variables *)
 
 Inductive stmt :=
 | SAssign (x : string) (e : expr)
@@ -406,12 +449,22 @@ Inductive stmt :=
 | SSelfCall (m : string) (args : list expr) (kwargs : list (string * expr))
     (* `self.m(..)` as a statement, m a procedure: self is rebound to what the call leaves *)
 | SMutCall (x : string) (m : string) (args : list expr)  (* `x.m(..)` as a statement, x a local holding a builtin mutable object *)
-| SForEnum (xi xv : string) (iter : expr) (body : list stmt).   (* for xi, xv in enumerate(iter) *)
+| SForEnum (xi xv : string) (iter : expr) (body : list stmt)    (* for xi, xv in enumerate(iter) *)
+| SSelfItemSet (field : string) (key value : expr)              (* self.field[key] = value, a dict *)
+| SSelfFieldCall (field m : string) (args : list expr)          (* self.field.m(..) as a statement: a builtin mutable object *)
+| SSelfEffect (target : option string) (field m : string) (args : list expr) (kwargs : list (string * expr))
+              (awaited : bool)
+    (* [target =] [await] self.field.m(..) where self.field is outside the translated code: recorded *)
+| SCallbackEffect (f a k : expr)                                (* f( *a, **k ) as a statement, f a callable from outside: recorded *)
+| SReturnState (e : option expr)                                (* `return e` in a method whose run yields (value, self) *)
+| SSuspend (x : string).                                        (* the coroutine suspends in `x = await ..`: yields (Suspended x, self) *)
 
 (* KProcedure: a method that never returns a value (Python: None) and may assign attributes of self;
    here a call of it yields the self it leaves (values are immutable), and it is only ever called as
    the statement SSelfCall *)
-Inductive fkind := KFunction | KMethod | KClassMethod | KProcedure.
+(* KStateful: a method that returns a value AND changes self / performs recorded calls: a call of it
+   yields the pair (value, self) *)
+Inductive fkind := KFunction | KMethod | KClassMethod | KProcedure | KStateful.
 
 Record fundef := mkFun {
   fqual : list string;                        (* [function] or [class; method] *)
@@ -541,9 +594,15 @@ Definition obj_mutator (m : string) (v : val) (args : list val) : res val :=
       | [VStr t], Some (VStr b) => Ok (VObj cls [("buf", VStr (b ++ t)%list)])
       | _, _ => Stuck "StringIO.write"
       end
+    else if String.eqb cls "dict" && String.eqb m "setdefault" then
+      match args, dict_items v with
+      | [k; d], Some items => Ok (mk_dict (if dict_mem k items then items else dict_set k d items))
+      | _, _ => Stuck "dict.setdefault"
+      end
     else Stuck "unknown mutating method"
   | _ => Stuck "mutating method on this value"
   end.
+
 
 (* sum(elt for x in l) over a list: left to right from 0 *)
 Fixpoint sum_vals (f : val -> res val) (l : list val) (acc : Z) : res val :=
@@ -739,6 +798,15 @@ Fixpoint eval (env : envT) (e : expr) {struct e} : res val :=
          | Raise k => Raise k | Stuck w => Stuck w
          end
        end) parts
+  | EClosure q captured =>
+    match (fix go (xs : list string) : option (list (string * val)) :=
+             match xs with
+             | [] => Some []
+             | x :: r => match get x env, go r with Some v, Some l => Some ((x, v) :: l) | _, _ => None end
+             end) captured with
+    | Some l => Ok (VObj "closure" (("$fn", VGlobal q) :: l))
+    | None => Stuck "unbound captured variable"
+    end
   | EProp e name =>
     match eval env e with
     | Ok (VObj cls fields) => call [cls; name] (Some (VObj cls fields)) [] []
@@ -835,6 +903,21 @@ Definition set_field (a : string) (v : val) (fields : list (string * val)) : lis
      | [] => [(a, v)]
      | (b, w) :: r => if String.eqb a b then (a, v) :: r else (b, w) :: go r
      end) fields.
+
+(* the effect log: calls that leave the translated code (the protocol object, user callbacks) are not
+   executed but recorded, in order, in the ghost attribute "$log" of self; what a recorded call returns is
+   an opaque token naming the call *)
+Definition log_effect (sv : val) (entry : val) : res (val * val) :=
+  match sv with
+  | VObj cls fields =>
+    match get "$log" fields with
+    | Some (VList log) =>
+      Ok (VObj "Result" [("n", VInt (Z.of_N (len log)))],
+          VObj cls (set_field "$log" (VList (log ++ [entry])%list) fields))
+    | _ => Stuck "no effect log"
+    end
+  | _ => Stuck "no effect log"
+  end.
 
 Section Exec.
 Variable fuel : nat.        (* bound on the iterations of each `while` *)
@@ -997,6 +1080,116 @@ Fixpoint exec (env : envT) (s : stmt) {struct s} : outcome :=
       end
     | Raise k => ORaise k env | Stuck w => OStuck w
     end
+  | SSelfItemSet field key value =>
+    match eval env key with
+    | Ok kv =>
+      match eval env value with
+      | Ok vv =>
+        match get "self" env with
+        | Some (VObj cls fields) =>
+          match get field fields with
+          | Some d => match dict_items d with
+                      | Some items =>
+                        ONormal (set "self" (VObj cls (set_field field (mk_dict (dict_set kv vv items)) fields)) env)
+                      | None => OStuck "item assignment on a non-dict"
+                      end
+          | None => ORaise AttributeError env
+          end
+        | _ => OStuck "self.field[k] = v without an instance"
+        end
+      | Raise k => ORaise k env | Stuck w => OStuck w
+      end
+    | Raise k => ORaise k env | Stuck w => OStuck w
+    end
+  | SSelfFieldCall field m args =>
+    match (fix go (es : list expr) : res (list val) :=
+             match es with
+             | [] => Ok []
+             | e :: r => match eval env e with
+                         | Ok v => match go r with Ok vs => Ok (v :: vs) | Raise k => Raise k | Stuck w => Stuck w end
+                         | Raise k => Raise k | Stuck w => Stuck w
+                         end
+             end) args with
+    | Ok vs =>
+      match get "self" env with
+      | Some (VObj cls fields) =>
+        match get field fields with
+        | Some d => match obj_mutator m d vs with
+                    | Ok d' => ONormal (set "self" (VObj cls (set_field field d' fields)) env)
+                    | Raise k => ORaise k env | Stuck w => OStuck w
+                    end
+        | None => ORaise AttributeError env
+        end
+      | _ => OStuck "self.field.m(..) without an instance"
+      end
+    | Raise k => ORaise k env | Stuck w => OStuck w
+    end
+  | SSelfEffect target field m args kwargs awaited =>
+    match (fix go (es : list expr) : res (list val) :=
+             match es with
+             | [] => Ok []
+             | e :: r => match eval env e with
+                         | Ok v => match go r with Ok vs => Ok (v :: vs) | Raise k => Raise k | Stuck w => Stuck w end
+                         | Raise k => Raise k | Stuck w => Stuck w
+                         end
+             end) args with
+    | Ok vs =>
+      match (fix go (es : list (string * expr)) : res (list val) :=
+               match es with
+               | [] => Ok []
+               | (x, e) :: r => match eval env e with
+                                | Ok v => match go r with Ok ws => Ok (VTuple [VGlobal [x]; v] :: ws) | Raise k => Raise k | Stuck w => Stuck w end
+                                | Raise k => Raise k | Stuck w => Stuck w
+                                end
+               end) kwargs with
+      | Ok kw =>
+        match get "self" env with
+        | Some sv =>
+          match log_effect sv (VTuple [VGlobal [field; m]; VList vs; VList kw; VBool awaited]) with
+          | Ok (r, sv') =>
+            ONormal (match target with Some x => set x r (set "self" sv' env) | None => set "self" sv' env end)
+          | Raise k => ORaise k env | Stuck w => OStuck w
+          end
+        | None => OStuck "recorded call without self"
+        end
+      | Raise k => ORaise k env | Stuck w => OStuck w
+      end
+    | Raise k => ORaise k env | Stuck w => OStuck w
+    end
+  | SCallbackEffect f a k =>
+    match eval env f with
+    | Ok fv =>
+      match eval env a with
+      | Ok av =>
+        match eval env k with
+        | Ok kv =>
+          match get "self" env with
+          | Some sv =>
+            match log_effect sv (VTuple [VGlobal ["call"]; fv; av; kv]) with
+            | Ok (_, sv') => ONormal (set "self" sv' env)
+            | Raise e => ORaise e env | Stuck w => OStuck w
+            end
+          | None => OStuck "recorded call without self"
+          end
+        | Raise e => ORaise e env | Stuck w => OStuck w
+        end
+      | Raise e => ORaise e env | Stuck w => OStuck w
+      end
+    | Raise e => ORaise e env | Stuck w => OStuck w
+    end
+  | SReturnState e =>
+    match (match e with None => Ok VNone | Some e' => eval env e' end) with
+    | Ok v => match get "self" env with
+              | Some sv => OReturn (VTuple [v; sv])
+              | None => OStuck "stateful method without self"
+              end
+    | Raise k => ORaise k env | Stuck w => OStuck w
+    end
+  | SSuspend x =>
+    match get x env, get "self" env with
+    | Some v, Some sv => OReturn (VTuple [VObj "Suspended" [("on", v)]; sv])
+    | _, _ => OStuck "suspend"
+    end
   | SForEnum xi xv iter body =>
     match eval env iter with
     | Ok (VList l) => for_enum (fun env => block env body) xi xv l 0 env
@@ -1074,6 +1267,7 @@ Fixpoint is_init (q : list string) : bool :=
   end.
 
 Definition is_procedure (k : fkind) : bool := match k with KProcedure => true | _ => false end.
+Definition is_stateful (k : fkind) : bool := match k with KStateful => true | _ => false end.
 
 Definition run_fun (call : callT) (fuel : nat) (fd : fundef)
            (recv : option val) (args : list val) (kw : list (string * val)) : res val :=
@@ -1084,6 +1278,8 @@ Definition run_fun (call : callT) (fuel : nat) (fd : fundef)
     | KMethod, _ => Stuck "method without an instance"
     | KProcedure, Some (VObj c f) => Ok (VObj c f :: args)
     | KProcedure, _ => Stuck "method without an instance"
+    | KStateful, Some (VObj c f) => Ok (VObj c f :: args)
+    | KStateful, _ => Stuck "method without an instance"
     | KClassMethod, Some r => match class_of r with Some c => Ok (c :: args) | None => Stuck "classmethod receiver" end
     | KClassMethod, None => Stuck "classmethod without a receiver"
     end in
@@ -1097,6 +1293,8 @@ Definition run_fun (call : callT) (fuel : nat) (fd : fundef)
           (* calling `__init__` yields the initialised instance (values are immutable here) *)
           if is_init (fqual fd) || is_procedure (fkind_of fd) then
             match get "self" env' with Some sv => Ok sv | None => Stuck "__init__ without self" end
+          else if is_stateful (fkind_of fd) then
+            match get "self" env' with Some sv => Ok (VTuple [VNone; sv]) | None => Stuck "method without self" end
           else Ok VNone
         | OReturn v => if is_init (fqual fd) then Stuck "return in __init__" else Ok v
         | ORaise k _ => Raise k
